@@ -322,6 +322,35 @@ class Fn:
             return (out, "Nat")
         raise NotTranslatable(f"struct attribute {attr}")
 
+    def subscript_str_slice(self, node, base, env):
+        """a slice of a `str` (or of an ASCII byte string kept as a list of characters)"""
+        sl = node.slice
+        if sl.step is not None:
+            raise NotTranslatable("slice step")
+        lo = sl.lower
+        hi = sl.upper
+        def neg_const(n):
+            return isinstance(n, ast.UnaryOp) and isinstance(n.op, ast.USub) and isinstance(n.operand, ast.Constant) and isinstance(n.operand.value, int)
+        if lo is None and hi is not None and neg_const(hi):
+            k = hi.operand.value
+            return (f"(List.take (List.length {par(base)} - {k}) {par(base)})", "Str")      # s[:-k]
+        if hi is None:
+            if lo is None:
+                return (base, "Str")
+            if neg_const(lo):
+                raise NotTranslatable("negative slice start")
+            return (f"(List.drop {par(self.nat_index(lo, env))} {par(base)})", "Str")
+        if lo is not None and not neg_const(lo) and neg_const(hi):
+            l_ = self.nat_index(lo, env)
+            k = hi.operand.value
+            inner = f"(List.drop {par(l_)} {par(base)})"
+            return (f"(List.take (List.length {inner} - {k}) {inner})", "Str")          # s[a:-k]
+        if neg_const(hi) or (lo is not None and neg_const(lo)):
+            raise NotTranslatable("negative slice bounds")
+        l = self.nat_index(lo, env) if lo is not None else "0"
+        h = self.nat_index(hi, env)
+        return (f"(List.take ({h} - {l}) (List.drop {par(l)} {par(base)}))", "Str")
+
     def fields(self, e, t, rest):
         if rest and t.startswith("StructOf:"):
             r = self.struct_attr(e, t, rest[0])
@@ -456,6 +485,27 @@ class Fn:
                     parts.append(self.compare(op, left, right))
                 left = right
             return (parts[0] if len(parts) == 1 else "(" + " && ".join(parts) + ")", "Bool")
+        if isinstance(node, (ast.ListComp, ast.SetComp)) and len(node.generators) == 1 and not node.generators[0].is_async \
+                and isinstance(node.generators[0].target, ast.Name):
+            # [f(x) for x in xs if c] ; a set comprehension is kept as the list of its elements (membership is all a set is used for
+            # in the translated code; order and multiplicity are not observable through `in`)
+            gen = node.generators[0]
+            it, tit = self.expr(gen.iter, env)
+            if not tit.startswith("List:"):
+                raise NotTranslatable("comprehension over a non-list")
+            v = self.lean_name(gen.target.id)
+            env2 = dict(env)
+            env2[gen.target.id] = (v, tit[5:])
+            self.no_raise += 1
+            try:
+                xe, xt = self.expr(node.elt, env2)
+                conds = [self.cond(c, env2) for c in gen.ifs]
+            finally:
+                self.no_raise -= 1
+            src = it
+            if conds:
+                src = f"(List.filter (fun {v} => " + " && ".join(conds) + f") {par(it)})"
+            return (f"(List.map (fun {v} => {xe}) {par(src)})", "List:" + xt)
         if isinstance(node, ast.IfExp):
             self.no_raise += 1
             try:
@@ -577,34 +627,12 @@ class Fn:
                 c = self.compare(ast.Eq(), (k, tk), (ke, kt))
                 out = f"(if {c} then {ve} else {out})"
             return (out, vt)
+        if tb == "Bytes" and self.t.get("bytes_elem") == "Char" and isinstance(node.slice, ast.Slice):
+            e_, _ = self.subscript_str_slice(node, base, env)
+            return (e_, "Bytes")
         if tb == "Str":
             if isinstance(node.slice, ast.Slice):
-                sl = node.slice
-                if sl.step is not None:
-                    raise NotTranslatable("slice step")
-                lo = sl.lower
-                hi = sl.upper
-                def neg_const(n):
-                    return isinstance(n, ast.UnaryOp) and isinstance(n.op, ast.USub) and isinstance(n.operand, ast.Constant) and isinstance(n.operand.value, int)
-                if lo is None and hi is not None and neg_const(hi):
-                    k = hi.operand.value
-                    return (f"(List.take (List.length {par(base)} - {k}) {par(base)})", "Str")      # s[:-k]
-                if hi is None:
-                    if lo is None:
-                        return (base, "Str")
-                    if neg_const(lo):
-                        raise NotTranslatable("negative slice start")
-                    return (f"(List.drop {par(self.nat_index(lo, env))} {par(base)})", "Str")
-                if lo is not None and not neg_const(lo) and neg_const(hi):
-                    l_ = self.nat_index(lo, env)
-                    k = hi.operand.value
-                    inner = f"(List.drop {par(l_)} {par(base)})"
-                    return (f"(List.take (List.length {inner} - {k}) {inner})", "Str")          # s[a:-k]
-                if neg_const(hi) or (lo is not None and neg_const(lo)):
-                    raise NotTranslatable("negative slice bounds")
-                l = self.nat_index(lo, env) if lo is not None else "0"
-                h = self.nat_index(hi, env)
-                return (f"(List.take ({h} - {l}) (List.drop {par(l)} {par(base)}))", "Str")
+                return self.subscript_str_slice(node, base, env)
             i = self.nat_index(node.slice, env)
             return (f"(List.take 1 (List.drop {par(i)} {par(base)}))", "Str")             # s[i]: a string of length 1 (IndexError: totalised to "")
         if tb == "List:Str" and not isinstance(node.slice, ast.Slice):
@@ -930,6 +958,15 @@ class Fn:
             recv_node = node.func.value
             meth = node.func.attr
             rd = dotted(recv_node)
+            if meth in ("encode", "lower") and not args and not kw and self.t.get("bytes_elem") == "Char":
+                try:
+                    re_, rt = self.expr(recv_node, env)
+                except NotTranslatable:
+                    re_, rt = None, None
+                if meth == "encode" and rt == "Str":
+                    return (re_, "Bytes")            # an ASCII text and its bytes: the same list of characters
+                if meth == "lower" and rt == "Bytes":
+                    return (f"(lower {par(re_)})", "Bytes")
             if meth == "strip" and not args and not kw:
                 try:
                     re_, rt = self.expr(recv_node, env)
@@ -1028,6 +1065,13 @@ class Fn:
                             raise NotTranslatable("join of non-strings")
                         items.append(xe)
                     return (f"(List.intercalate {par(re_)} [" + ", ".join(items) + "])", "Str")
+                if (rt == "Bytes" and self.t.get("bytes_elem") == "Char" and meth in ("partition", "split") and len(args) == 1 and not kw
+                        and isinstance(args[0], ast.Constant) and isinstance(args[0].value, bytes) and len(args[0].value) == 1
+                        and 32 < args[0].value[0] < 127 and chr(args[0].value[0]) not in "'\\"):
+                    ch = chr(args[0].value[0])
+                    if meth == "partition":
+                        return (f"(partition '{ch}' {par(re_)})", "Tuple:Bytes,Bool,Bytes")
+                    return (f"(split '{ch}' {par(re_)})", "List:Bytes")
                 if rt == "Str" and meth in ("partition", "split") and len(args) == 1 and not kw:
                     if isinstance(args[0], ast.Constant) and isinstance(args[0].value, str) and len(args[0].value) == 1 and 32 <= ord(args[0].value) < 127 and args[0].value not in "'\\":
                         ch = args[0].value
@@ -1122,6 +1166,8 @@ class Fn:
             self.div_sites.append(ast.unparse(node))
             ai, bi = as_int(*l), as_int(*r)
             return (f"((Int.fdiv {par(ai)} {par(bi)}), (Int.fmod {par(ai)} {par(bi)}))", "Tuple:Int,Int")
+        if fname == "set" and not args and not kw:
+            return ("[]", "List:_")
         if fname == "tuple" and len(args) == 1 and not kw:
             e, t = self.expr(args[0], env)
             if t.startswith("List:"):
